@@ -8,7 +8,7 @@ from mirsym.engine import PyCallable
 from mirsym.summaries.core import some, none, ok, err, deref_all
 from specs import dbmodel, depscheck, buildworld
 from specs.buildworld import BuildWorld, S_NEW, S_NEW2
-from specs.dbmodel import BASE, S1, S2, S3, S4, S_MISSING, S_DIR
+from specs.dbmodel import BASE, S1, S2, S3, S4, S_MISSING, S_DIR, S_LINK
 
 T_NAME = b'tgt'
 TMP_NAME = b'tgt.redo.tmp'
@@ -157,7 +157,7 @@ def record_new_state_facts(chk, pid):
         fx = list(w.effects)
         on_t = [(k, d) for k, d in fx if (k in ('unlink', 'create') and d['name'] == tn) or (k == 'rename' and d['dst'] == tn) or
                 (k == 'copy' and d['dst'] == tn) or (k == 'rename' and d['src'] == tn)]
-        injected = any(k in ('rename-failed', 'create-failed') for k, d in w.log)
+        injected = any(k in ('rename-failed', 'create-failed', 'rename-eisdir') for k, d in w.log)
         wit = {'before': None if st['before'] is None else bytes(st['before']).decode(), 'touched': st['touched'],
                'stdout_bytes': st['out_size'], 'has3': st['has3'], 'effects': [(k, d) for k, d in fx],
                'faults': [k for k, d in w.log if k.endswith('-failed')]}
@@ -415,11 +415,14 @@ PREAMBLE_SCENARIO = r"""
 set -u
 mkdir proj && cd proj
 echo v1 > src
-printf 'echo ran >> ../ran.log\ncat src\n' > @DOFILE@
+cat > @DOFILE@ <<'DO'
+@DOBODY@
+DO
 @SETUP@
 redo-ifchange tgt >../run1.log 2>&1
 echo "rc1=$?"
 echo "tgt1=$(cat tgt 2>/dev/null || echo MISSING)"
+echo "link1=$([ -L tgt ] && echo yes || echo no)"
 echo "ran1=$(wc -l < ../ran.log 2>/dev/null || echo 0)"
 redo-ifchange tgt >../run2.log 2>&1
 echo "rc2=$?"
@@ -445,18 +448,31 @@ def preamble_replay(scn, c):
     same_mtime = w.get('fs') is not None and w.get('stamp') is not None and w['fs'].split('-')[0] == w['stamp'].split('-')[0]
     # a hand edit; with the recorded mtime kept when the witness says only the size differs (cp -p, rsync -t, touch -r)
     edit = ('cp -p tgt ../ref; echo USER-EDIT > tgt; touch -r ../ref tgt' if same_mtime else 'echo USER-EDIT > tgt')
+    dobody = 'echo ran >> ../ran.log\ncat src'
+    is_link = (w.get('fs') or '').startswith('7.000000-5-555')
     if role == 'stale-tmp':
         setup = 'echo STALE-PARTIAL-OUTPUT > tgt.redo.tmp'
         want = {'rc1': '0', 'tgt1': 'v1', 'tmpfiles': '0'}
     elif role in ('touches-foreign-file', 'foreign-file-status', 'foreign-file-role'):
-        if gen and ovr:
+        want = {'rc1': '0', 'tgt1': 'USER-EDIT', 'ran1': '0', 'rc2': '0', 'tgt2': 'USER-EDIT', 'ran2': '0'}
+        if is_link:
+            # the user's own symbolic link to a regular file (e.g. config.h -> config-linux.h); a rule matches its name
+            setup = ('echo USER-EDIT > real-file\nln -s real-file tgt' if not gen else
+                     build_first + '\nrm -f tgt\necho USER-EDIT > real-file\nln -s real-file tgt')
+            want['link1'] = 'yes'
+        elif gen and row.get('stamp') is None:
+            # marked generated by redo-stamp during a first build that was killed before any stamp was recorded; then the user
+            # wrote the file by hand
+            dobody = ('if [ -e ../kill-after-stamp ]; then redo-ifchange src; cat src > $3; redo-stamp < $3; rm -f ../kill-after-stamp; '
+                      'kill -9 $PPID; exit 1; fi\necho ran >> ../ran.log\ncat src')
+            setup = ': > ../kill-after-stamp\nredo-ifchange tgt >/dev/null 2>&1\n: > ../ran.log\necho USER-EDIT > tgt'
+        elif gen and ovr:
             # generated, edited by hand, noticed by an earlier run (marked overridden), then edited a second time
             setup = build_first + '\necho FIRST-EDIT > tgt\nredo-ifchange tgt >/dev/null 2>&1\n: > ../ran.log; sleep 0.05\n' + edit
         elif gen:
             setup = build_first + '\n' + edit                      # generated, then edited by hand
         else:
             setup = 'echo USER-EDIT > tgt'                       # the user's own file; a rule matches its name
-        want = {'rc1': '0', 'tgt1': 'USER-EDIT', 'ran1': '0', 'rc2': '0', 'tgt2': 'USER-EDIT', 'ran2': '0'}
     elif role == 'not-started':
         if exists:
             setup = build_first + '\necho v2 > src'
@@ -473,7 +489,7 @@ def preamble_replay(scn, c):
         want = {'rc1': '0', 'tgt1': 'USER'} if exists else {'tgt1': 'MISSING'}
     else:
         return False, 'no scenario for %s' % role
-    script = PREAMBLE_SCENARIO.replace('@DOFILE@', dof).replace('@SETUP@', setup)
+    script = PREAMBLE_SCENARIO.replace('@DOFILE@', dof).replace('@DOBODY@', dobody).replace('@SETUP@', setup)
     rc, out = scn.run({}, script, timeout=300)
     c['scenario_output'] = out[-2500:]
     if rc == 97 or 'SETUP-FAILED' in out:
@@ -501,9 +517,26 @@ sed 's/^/ARG=/' ../args.out
 """
 
 
+SHELL_FLAGS_SCENARIO = r"""
+set -u
+mkdir proj && cd proj
+# the script's first command fails; under `sh -e` the script stops and the build fails
+printf 'false\necho reached-the-end > $3\n' > tgt.do
+redo @FLAGS@ tgt > ../log 2>&1; echo "rc=$?"
+echo "tgt=$(cat tgt 2>/dev/null || echo MISSING)"
+"""
+
+
 def argv_replay(scn, c):
     import posixpath
     w = c['witness']
+    if c.get('role') == 'script-args:shell':
+        flags = ('-v ' if w.get('verbose') else '') + ('-x' if w.get('xtrace') else '')
+        rc, out = scn.run({}, SHELL_FLAGS_SCENARIO.replace('@FLAGS@', flags), timeout=120)
+        c['scenario_output'] = out[-1200:]
+        lines = dict(l.split('=', 1) for l in out.split('\n') if '=' in l)
+        bad = lines.get('rc') == '0' or lines.get('tgt') != 'MISSING'
+        return bad, 'real binaries, `redo %s tgt` with a script whose first command fails: %r (must fail and leave no target)' % (flags, lines)
     t, dof = w['target'], w['do_file']
     # a `#!` line is reproduced with /bin/sh so that the same script body runs; the interpreter obligation itself is not replayable
     script = (ARGV_SCENARIO.replace('@DODIR@', posixpath.dirname(dof) or '.').replace('@TDIR@', posixpath.dirname(t) or '.')
@@ -540,6 +573,10 @@ def make_replay(chk, rep, scn):
         w = c.get('witness', {})
         if c.get('kind') == 'argv':
             return argv_replay(scn, c)
+        if c.get('kind') == 'tmpname':
+            return tmpname_replay(scn, c)
+        if c.get('kind') == 'jobstatus':
+            return jobstatus_replay(scn, c)
         if role.startswith('start_self:') and c.get('kind') == 'buildjob':
             return preamble_replay(scn, c)
         if c.get('kind') == 'crash' and w.get('crash_point') in CRASH_SPEC and w.get('script'):
@@ -686,6 +723,8 @@ def run_start_self(eng, w, psr, before_md=None):
     if before_md is None:
         st = w.fs_stamp(tuple(T_NAME))
         before_md = some(w.metadata(tuple(T_NAME), st)) if st is not None else none()
+        if st is not None and tuple(st) == tuple(S_LINK):
+            before_md.f[0].data['is_symlink'] = True       # try_stat uses symlink_metadata
     ps_rc = new_cell(Struct('RefCell', [psr, 0]))
     r = eng.call('BuildJob::start_self', [job, ps_rc, ptxr.get(), new_cell(Opaque('JobServerHandle', None)), before_md], None, None)
     return r
@@ -723,7 +762,7 @@ def start_self_facts(chk, pid):
     st = {}
 
     def run():
-        w, R, env, psr = setup(eng, log=0, fs_choices=(None, S1, S2, S3, S4, S_DIR))
+        w, R, env, psr = setup(eng, log=0, fs_choices=(None, S1, S2, S3, S4, S_DIR, S_LINK))
         for dn in DO_NAMES:
             k = eng.choose(2, 'exists ' + dn.decode())
             w.fs[tuple(dn)] = tuple(S1) if k else None
@@ -765,10 +804,15 @@ def start_self_facts(chk, pid):
         touched_t = [(k, d) for k, d in fx if (k in ('unlink', 'create') and d.get('name') == tn) or
                      (k == 'rename' and tn in (d.get('src'), d.get('dst')))]
         rv = ready_value(eng, res.f[0]) if res.var == 'Ok' else None
+        is_link = exists and tuple(fs0) == tuple(S_LINK)
+        chk.goal('start_self: the file is a symbolic link put there by the user', is_link)
         edited = exists and stamp is not None and crit(stamp) != crit(fs0)
-        # "not ours": exists as a file and (never generated | marked overridden | generated but edited since)
+        # no recorded stamp: nothing shows that the file now on disk is the one redo produced (redo-stamp marks a first build
+        # generated before any stamp exists; after a kill the user may have written the file by hand)
+        unproven = exists and stamp is None
+        # "not ours": exists as a file and (never generated | marked overridden | generated but edited since | unproven)
         if exists and not is_dir:
-            not_ours = z3.Or(z3.Not(gen), ovr, z3.BoolVal(bool(edited)))
+            not_ours = z3.Or(z3.Not(gen), ovr, z3.BoolVal(bool(edited)), z3.BoolVal(bool(unproven)))
             chk.goal('start_self: an existing non-generated file is met', eng.check(z3.Not(gen)))
             chk.goal('start_self: a hand-edited generated file is met', edited and eng.check(z3.And(gen, z3.Not(ovr))))
             if eng.check(not_ours):
@@ -1101,6 +1145,7 @@ def script_arguments(chk, pid):
         k = eng.choose(len(ARG_SHAPES), 'shape')
         tname, dofile, cwd, a1, a2 = ARG_SHAPES[k]
         verbose = eng.choose(2, 'verbose')
+        xtrace = eng.choose(2, 'xtrace')
         shebang = eng.choose(2, 'shebang')
         R = z3.Int('R')
         w = BuildWorld(eng, R)
@@ -1113,9 +1158,9 @@ def script_arguments(chk, pid):
             w.fs[tuple(d_)] = tuple(S_DIR)
         w.do_firstline = b'#!/usr/bin/env python3\n' if shebang else b'echo hi\n'
         w.canonicalize = lambda e, p_: ok(Vec(list(bytes(deref_all(p_).items)), 'PathBuf'))
-        env = dbmodel.make_env(eng, R, log=0, verbose=verbose)
+        env = dbmodel.make_env(eng, R, log=0, verbose=verbose, xtrace=xtrace)
         psr = new_cell(dbmodel.make_process_state(eng, env))
-        st.update(w=w, shape=ARG_SHAPES[k], verbose=verbose, shebang=shebang)
+        st.update(w=w, shape=ARG_SHAPES[k], verbose=verbose, xtrace=xtrace, shebang=shebang)
         w.run_child = True
         w.child_rv = None
         ptx = dbmodel.begin(eng, psr)
@@ -1132,7 +1177,7 @@ def script_arguments(chk, pid):
     def judge(outcome, val, path):
         w = st['w']
         tname, dofile, cwd, a1, a2 = st['shape']
-        wit = {'target': tname.decode(), 'do_file': dofile.decode(), 'verbose': st['verbose'], 'shebang': st['shebang'],
+        wit = {'target': tname.decode(), 'do_file': dofile.decode(), 'verbose': st['verbose'], 'xtrace': st['xtrace'], 'shebang': st['shebang'],
                'argv': [a.decode('latin-1') for a in (w.exec_argv or [])], 'cwd': (w.child_cwd or b'').decode('latin-1')}
 
         def cand(role, what):
@@ -1152,7 +1197,8 @@ def script_arguments(chk, pid):
                 return cand('interpreter', 'the #! interpreter line is not used: %r' % (argv[:3],))
             rest = argv[2:]
         else:
-            want0 = [b'sh', b'-ev' if st['verbose'] else b'-e']
+            # always `sh -e` (a failing command, e.g. a failing redo-ifchange, must end the script), plus v / x when asked for
+            want0 = [b'sh', b'-e' + (b'v' if st['verbose'] else b'') + (b'x' if st['xtrace'] else b'')]
             if argv[:2] != want0:
                 return cand('shell', 'shell invocation is %r, expected %r' % (argv[:2], want0))
             rest = argv[2:]
@@ -1187,3 +1233,165 @@ def script_arguments(chk, pid):
                 'argv': [a.decode('latin-1') for a in (w.exec_argv or [])]}
 
     chk.explore('script invocation: cwd, argv, $1 $2 $3, environment (child closure up to execvp)', run, judge, sample)
+
+
+# ------------------------------------------------------------------------------------------------ temp names are per target (C04)
+def tmp_names_distinct(chk, pid):
+    """two different targets never share the temporary output name ($3 / the stdout copy): builds of sibling targets overlap in
+    time (parallel, or nested through redo-ifchange inside a script), and each start removes "its" stale temp file"""
+    eng = chk.eng
+    install_job_stubs(eng)
+    eng.stubs['ProcessState::is_flushed'] = lambda e, ci, a, sp: True
+    PAIRS = [((b'x.c', b'default.c.do'), (b'x.h', b'default.h.do')),
+             ((b'x.c', b'default.c.do'), (b'x', b'default.do')),
+             ((b'd/x.c', b'default.c.do'), (b'd/x.h', b'd/default.h.do'))]
+    st = {}
+
+    def run():
+        pair = PAIRS[eng.choose(len(PAIRS), 'pair of targets')]
+        R = z3.Int('R')
+        w = BuildWorld(eng, R)
+        eng.world = w
+        eng.assume(z3.And(R > 1, R < (1 << 62)))
+        w.fs[tuple(b'd')] = tuple(S_DIR)
+        w.do_firstline = b'echo hi\n'
+        w.canonicalize = lambda e, p_: ok(Vec(list(bytes(deref_all(p_).items)), 'PathBuf'))
+        w.run_child = True
+        env = dbmodel.make_env(eng, R, log=0)
+        psr = new_cell(dbmodel.make_process_state(eng, env))
+        out = []
+        for i, (tname, dofile) in enumerate(pair):
+            w.add_file(T_ID + i, tname)
+            w.fs[tuple(tname)] = None
+            w.fs[tuple(dofile)] = tuple(S1)
+        for i, (tname, dofile) in enumerate(pair):
+            w.child_cwd, w.exec_argv, w.child_rv = None, None, None
+            ptx = dbmodel.begin(eng, psr)
+            ptxr = new_cell(ptx)
+            if run_sets_commit_on_drop(eng):
+                eng.call('ProcessTransaction::set_drop_behavior', [ptxr, Enum('DropBehavior', 'Commit')], None, None)
+            job = make_job(eng, w, ptxr, target_id=T_ID + i, name=tname)
+            ps_rc = new_cell(Struct('RefCell', [psr, 0]))
+            r = eng.call('BuildJob::start_self', [job, ps_rc, ptxr.get(), new_cell(Opaque('JobServerHandle', None)), none()], None, None)
+            if r.var != 'Ok' or not w.exec_argv:
+                raise Unsupported('job %r did not reach execvp: %r' % (tname, r))
+            import posixpath
+            cwd = (w.child_cwd if w.child_cwd is not None else w.cwd).decode()
+            out.append((tname.decode(), posixpath.normpath(posixpath.join(cwd, w.exec_argv[-1].decode()))))
+        st['out'] = out
+        st['pair'] = pair
+        return out
+
+    def judge(outcome, val, path):
+        if outcome != 'ok':
+            return {'role': 'tmp-names:' + outcome, 'kind': 'none', 'what': 'temp names: %s %s' % (outcome, getattr(val, 'msg', val)), 'witness': {}}
+        (t1, p1), (t2, p2) = val
+        chk.goal('tmp names: two default.<ext>.do targets with the same base name', t1 == 'x.c' and t2 == 'x.h')
+        targets = {'/p/' + t1, '/p/' + t2}
+        bad = None
+        if p1 == p2:
+            bad = 'targets %s and %s share the temporary output file %s' % (t1, t2, p1)
+        elif p1 in targets or p2 in targets:
+            bad = 'a temporary output name equals a target name (%s, %s)' % (p1, p2)
+        if bad:
+            return {'role': 'tmp-names-shared', 'kind': 'tmpname', 'what': bad, 'witness': {'targets': [t1, t2], 'tmp': [p1, p2]}}
+        return None
+
+    chk.explore('temporary output names of different targets differ', run, judge)
+
+
+TMPNAME_SCENARIO = r"""
+set -u
+mkdir proj && cd proj
+# x.c's script starts writing $3, then needs x.h (built by a sibling default rule with the same base name), then finishes $3
+printf 'echo first > $3\nredo-ifchange $2.h\necho second >> $3\n' > default.c.do
+printf 'echo header > $3\n' > default.h.do
+redo-ifchange x.c > ../log 2>&1; echo "rc=$?"
+echo "xc=$(tr '\n' '+' < x.c 2>/dev/null || echo MISSING)"
+echo "xh=$(tr '\n' '+' < x.h 2>/dev/null || echo MISSING)"
+"""
+
+
+def tmpname_replay(scn, c):
+    rc, out = scn.run({}, TMPNAME_SCENARIO, timeout=120)
+    c['scenario_output'] = out[-1200:]
+    lines = dict(l.split('=', 1) for l in out.split('\n') if '=' in l)
+    bad = lines.get('rc') == '0' and (lines.get('xc') != 'first+second+' or lines.get('xh') != 'header+')
+    return bad, 'real binaries, nested build of two default.<ext>.do targets with the same base name: %r' % (lines,)
+
+
+# ------------------------------------------------------------------------------------------------ job completion in builder::run
+def job_completion_blocks(chk, pid):
+    """builder::run (a lowered coroutine that is not executed) wraps every started job in `async { let rv = job.await; if rv != 0
+    { result.set(Err(..)) } }`.  These async blocks are ordinary MIR bodies: each is polled with a job that finishes with an
+    ARBITRARY i32 status (a script killed by a signal is reported as a negative number) and must record an error for every
+    status other than 0 - otherwise the command exits 0 although a script it needed did not succeed."""
+    eng = chk.eng
+    names = [n for n in eng.bodies if n.startswith('run::{closure#0}::{closure#') and eng.body(n).argtys and
+             'async block@src/builder.rs' in eng.body(n).argtys[0][1] and 'Poll<()>' in (eng.body(n).ret or '')]
+    if not names:
+        chk.inconclusive.append('job completion blocks of builder::run not identified in the MIR')
+        return
+    for nm in sorted(names):
+        st = {}
+
+        def run(nm=nm):
+            rv = z3.BitVec('job_rv', 32)
+            st['rv'] = rv
+            job = Struct('Pin', [new_cell(Struct('Ready', [some(rv)]))])
+            cell = Struct('Cell', [ok(UNIT)])
+            st['cell'] = cell
+            co = Coroutine(nm, [job, new_cell(cell), Vec(list(b'tgt'), 'String')])
+            cx = new_cell(Struct('Context', [Opaque('Waker', 'noop')]))
+            return eng.run_body(eng.body(nm), [Struct('Pin', [new_cell(co)]), cx])
+
+        def judge(outcome, val, path, nm=nm):
+            if outcome != 'ok':
+                return {'role': 'job-completion:' + outcome, 'kind': 'none', 'what': 'job completion block %s: %s %s' % (nm, outcome, getattr(val, 'msg', val)),
+                        'witness': {}}
+            rv, cell = st['rv'], st['cell']
+            res = cell.f[0]
+            is_err = isinstance(res, Enum) and res.var == 'Err'
+            chk.goal('job completion: a non-zero status is met', eng.check(rv != 0))
+            chk.goal('job completion: a negative status (signal) is met', eng.check(rv < 0))
+            if not is_err and eng.check(rv != 0):
+                # prefer a status a real script can end with: killed by signal 1..31 (negative) or exit 1..255
+                m = eng.model(z3.And(rv < 0, rv >= -31, rv != -19, rv != -17)) or eng.model(z3.And(rv > 0, rv <= 255)) or eng.model(rv != 0)
+                v = m.eval(rv, model_completion=True).as_signed_long()
+                return {'role': 'job-completion:failure-not-reported', 'kind': 'jobstatus',
+                        'what': 'a job that ends with status %d is not turned into an error of the command (%s)' % (v, nm),
+                        'witness': {'status': v, 'block': nm}}
+            if is_err and eng.check(rv == 0):
+                return {'role': 'job-completion:success-reported-as-failure', 'kind': 'none', 'what': 'status 0 is reported as an error', 'witness': {}}
+            return None
+
+        chk.explore('builder::run job completion block %s: every non-zero status is an error' % nm.split('::')[-1], run, judge)
+
+
+SIGNAL_SCENARIO = r"""
+set -u
+mkdir proj && cd proj
+printf 'redo-ifchange dep\ncat dep\n' > top.do
+printf 'redo-ifchange src\n@KILL@\ncat src\n' > dep.do
+echo v1 > src
+redo-ifchange top > ../log1 2>&1 || { echo SETUP-FAILED; exit 97; }
+sleep 0.05
+echo v2 > src
+: > ../die-now
+redo-ifchange top > ../log2 2>&1; echo "rc=$?"
+echo "dep=$(cat dep 2>/dev/null || echo MISSING)"
+echo "top=$(cat top 2>/dev/null || echo MISSING)"
+"""
+
+
+def jobstatus_replay(scn, c):
+    v = c['witness']['status']
+    kill = 'if [ -e ../die-now ]; then rm -f ../die-now; kill -%d $$; fi' % (-v) if v < 0 else 'if [ -e ../die-now ]; then rm -f ../die-now; exit %d; fi' % (v & 255)
+    rc, out = scn.run({}, SIGNAL_SCENARIO.replace('@KILL@', kill), timeout=120)
+    c['scenario_output'] = out[-1200:]
+    if 'SETUP-FAILED' in out:
+        return False, 'scenario could not be set up'
+    lines = dict(l.split('=', 1) for l in out.split('\n') if '=' in l)
+    bad = lines.get('rc') == '0' and lines.get('dep') != 'v2'
+    return bad, 'real binaries, dep.do ends with status %d during a rebuild: redo-ifchange top exits %s, dep=%r top=%r' % (
+        v, lines.get('rc'), lines.get('dep'), lines.get('top'))
